@@ -6,6 +6,8 @@ cd "$(dirname "$0")"
 mkdir -p build evidence replays
 export CARGO_NET_OFFLINE=true
 export CARGO_TARGET_DIR="$PWD/build/cargo"
+# second tie: build the translator, expand /repo, regenerate lean/KonstVerif/Extracted/Gen
+./translator/run.sh
 (cd lean && lake build)
 cp -n /repo/Cargo.lock harness/Cargo.lock 2>/dev/null || true
 (cd harness && cargo build --offline --quiet)
